@@ -9,6 +9,9 @@
    characters) returns, never takes a slice that is out of range or off a
    code-point boundary, and its loops terminate within the modelled bound.
 
+   Proved in part (C19_label_partial): the body of the in-head arm as a
+   function of the tag's attributes.
+
    NOT proved (no theorem below claims it): C19_when - "feed() returns
    EncodingIndicator l  iff  the token is a meta start tag that results in an
    inserted HTML meta element and (charset present with l = its value, or
@@ -48,6 +51,22 @@ Theorem C19_spec_commutes_with_utf8 :
   forall s, extract_spec (encs s) = option_map encs (extract_spec s).
 Proof. exact spec_commutes_with_utf8. Qed.
 Print Assumptions C19_spec_commutes_with_utf8.
+
+(* C19_when, the part that is a function of the tag alone (named _partial: the
+   full statement also says WHICH tokens reach this arm - every meta start tag
+   that ends up inserted as an HTML element, from every insertion mode - that
+   the element is already in the tree and that resuming is transparent; those
+   need the tree-builder model).  The body of the in-head arm returns
+   EncodingIndicator l exactly when the tag carries charset (l = its value) or,
+   without charset, http-equiv ~ content-type and a content attribute from
+   which the WHATWG extraction returns l; otherwise it is DoneAckSelfClosing;
+   it never panics. *)
+Theorem C19_label_partial :
+  forall attrs, scalar_attrs attrs ->
+  meta_arm (enc_attrs attrs) =
+  match meta_label_spec attrs with Some l => AIndicator (encs l) | None => ADone end.
+Proof. exact meta_arm_correct_match. Qed.
+Print Assumptions C19_label_partial.
 
 (* non-vacuity: `text/html; charset = "é x";` yields the label `é x`, and a
    byte string cut inside a code point really makes the model panic *)
